@@ -383,6 +383,19 @@ func c11(args []string) error {
 						same = fmt.Sprint(hx.IDs(cu.Participants())) == fmt.Sprint(hx.IDs(cc.Participants()))
 					}
 					o.emit(obj{"op": "combine", "okc": ec == nil, "oku": eu == nil, "same": same})
+					// ... and with a signature the other replica made over ANOTHER message: whatever comes out of the combination is not a
+					// valid signature of this message, on either authority (combining is not verifying)
+					if om := msgs[rng.Intn(len(msgs))]; other != me && fmt.Sprint(om) != fmt.Sprint(m) {
+						if s3, err := signers[other-1].Base.Sign(w.Bytes(om)); err == nil {
+							cu2, eu2 := au.Combine(sig, s3)
+							cc2, ec2 := ac.Combine(sig, s3)
+							if eu2 == nil && ec2 == nil {
+								xU, _, _ := verdict(func() error { return au.Verify(cu2, mb) })
+								xC, _, _ := verdict(func() error { return ac.Verify(cc2, mb) })
+								o.emit(obj{"op": "xverify", "of": "combined", "n": n, "scheme": scheme, "vc": xC, "vu": xU})
+							}
+						}
+					}
 				}
 			}
 		}
